@@ -2,6 +2,7 @@ package props
 
 import (
 	"fmt"
+	"go/ast"
 	"go/token"
 	"go/types"
 	"strings"
@@ -436,7 +437,7 @@ func c35mux(c *core.Ctx, fn *ssa.Function) {
 			"the handler looked up from the header byte is used without a non-nil test: an unregistered byte panics the mux goroutine", nil)
 	}
 	// every exit either handed off or closed the connection
-	hits := an.Ungated(an.CutSpec{Fn: fn,
+	hits := an.Ungated(an.CutSpec{Fn: fn, GateEdge: closedOnFailure(fn, conn),
 		GateInstr: func(in ssa.Instruction) bool {
 			if s, ok := in.(*ssa.Send); ok && an.Unwrap(s.X) == ssa.Value(conn) {
 				return true
@@ -453,6 +454,71 @@ func c35mux(c *core.Ctx, fn *ssa.Function) {
 	for _, h := range hits {
 		c.Bad("C35.c", "PAIR", "Mux.handleConn:close-or-handoff", c.P.Pos(h.Instr.Pos()), "an exit leaves the connection neither closed nor handed off", an.PathString(fn, h.Path, c.P.Pos))
 	}
+}
+
+// closedOnFailure returns the edges of fn on which a private helper that was
+// handed conn has reported failure (false / non-nil error) when every return of
+// that helper which reports failure has closed the connection: on those edges
+// the connection is closed.
+func closedOnFailure(fn *ssa.Function, conn ssa.Value) map[an.Edge]bool {
+	out := map[an.Edge]bool{}
+	an.Instrs(fn, func(in ssa.Instruction) {
+		call, ok := in.(*ssa.Call)
+		if !ok {
+			return
+		}
+		g := call.Common().StaticCallee()
+		if g == nil || len(g.Blocks) == 0 || g.Pkg != fn.Pkg || ast.IsExported(g.Name()) {
+			return
+		}
+		k := -1
+		for i, a := range call.Common().Args {
+			if an.Unwrap(a) == conn {
+				k = i
+			}
+		}
+		if k < 0 || k >= len(g.Params) {
+			return
+		}
+		p := g.Params[k]
+		unclosed := an.Ungated(an.CutSpec{Fn: g, NoLift: true,
+			GateInstr: func(x ssa.Instruction) bool {
+				ci, ok := x.(ssa.CallInstruction)
+				return ok && ci.Common().IsInvoke() && ci.Common().Method.Name() == "Close" && ci.Common().Value == ssa.Value(p)
+			},
+			Sink: func(x ssa.Instruction) bool { _, ok := x.(*ssa.Return); return ok }})
+		res := g.Signature.Results()
+		for i := 0; i < res.Len(); i++ {
+			t := res.At(i).Type()
+			isBool := types.Identical(t.Underlying(), types.Typ[types.Bool])
+			isErr := an.IsErrorType(t)
+			if !isBool && !isErr {
+				continue
+			}
+			all := true
+			for _, h := range unclosed {
+				r := h.Instr.(*ssa.Return)
+				if isBool {
+					if b, ok := an.ConstBool(r.Results[i]); !ok || !b {
+						all = false
+					}
+				} else if !an.IsNilConst(r.Results[i]) {
+					all = false
+				}
+			}
+			if !all {
+				continue
+			}
+			sense := an.IsFalse
+			if isErr {
+				sense = an.NotNil
+			}
+			for e := range an.SenseEdges(fn, an.Result(call, i), sense) {
+				out[e] = true
+			}
+		}
+	})
+	return out
 }
 
 // c35decode: a decode failure leaves the loop.
